@@ -123,12 +123,43 @@ def build_cli(repo, spec_dir, chunk=1, canary=False):
                clauses=[Clause('cli.first', 'r is Ok ==> r->Ok_0.config == default_config() && r->Ok_0.test_cases@ == test_cases@', ['C12']),
                         Clause('cli.unusable_input_is_an_error_not_a_panic', '(test_cases@.len() == 0 ==> r is Err) && (test_cases@.len() > 0 ==> r is Ok)', ['C12', 'C07'])],
                extra_rules=[('R19', r'Err\(("(?:[^"\\\\]|\\\\.)*")\.into\(\)\)', r'Err(vx_error(\1))', '&str -> Box<dyn Error> (opaque error value)')])
+    # obtain_input, the branch that reads the test cases from standard input: whatever bytes arrive, a line that is not valid UTF-8 is an io::Error
+    # (std: BufRead::lines yields Err(InvalidData)), and C12 wants it reported, not unwrapped
+    oi, _, _ = X.fn(ma, 'obtain_input')
+    blk, _, _ = X.block_after(oi, 'if is_single_item && is_hyphen && is_stdin_available ')
+    body = blk[1:-1]
+    def stdin_rules(t, log, w):
+        t2 = re.sub(r'stdin\(\)\s*\.lock\(\)\s*\.lines\(\)', 'vx_lines', t)
+        if t2 == t: raise X.LostAnchor('main.rs::obtain_input: stdin().lock().lines()')
+        log.add('R30', w, 'stdin().lock().lines()', 'vx_lines: an arbitrary sequence of io::Result<String> (parameter of the slice)')
+        t = t2
+        k = t.find('.map(')
+        if k >= 0:
+            pc = L.match_close(t, k + 4)
+            tail = re.match(r'\s*\.collect_vec\(\)', t[pc + 1:])
+            recv = re.search(r'vx_lines\s*$', t[:k])
+            if tail and recv:
+                log.add('R30', w, 'vx_lines.map(closure).collect_vec()', 'vx_map_collect(vx_lines, closure): applies the closure to every element, in order (its precondition must hold for every element)')
+                t = t[:recv.start()] + 'vx_map_collect(vx_lines, %s)' % t[k + 5:pc] + t[pc + 1 + tail.end():]
+        t2 = re.sub(r'vx_lines\s*\.collect::<Result<Vec<String>, Error>>\(\)', 'vx_collect_results(vx_lines)', t)
+        if t2 != t: log.add('R30', w, 'vx_lines.collect::<Result<Vec<String>, Error>>()', 'vx_collect_results(vx_lines): Ok(all lines) or the first Err (FromIterator for Result)')
+        return t2
+    b.emit('''pub struct Error { pub kind: u8 }       // std::io::Error (opaque)
+pub open spec fn all_ok(v: Seq<Result<String, Error>>) -> bool { forall|i: int| 0 <= i < v.len() ==> (#[trigger] v[i]) is Ok }
+#[verifier::external_body] pub fn vx_map_collect<F: Fn(Result<String, Error>) -> String>(v: Vec<Result<String, Error>>, f: F) -> (r: Vec<String>)
+    requires forall|i: int| 0 <= i < v@.len() ==> f.requires((#[trigger] v@[i],))
+    ensures r@.len() == v@.len(), forall|i: int| 0 <= i < v@.len() ==> f.ensures((v@[i],), #[trigger] r@[i]) { unimplemented!() }
+#[verifier::external_body] pub fn vx_collect_results(v: Vec<Result<String, Error>>) -> (r: Result<Vec<String>, Error>)
+    ensures all_ok(v@) <==> r is Ok, r is Ok ==> r->Ok_0@.len() == v@.len() && forall|i: int| 0 <= i < v@.len() ==> (#[trigger] v@[i])->Ok_0 == r->Ok_0@[i] { unimplemented!() }''')
+    b.slice_fn('obtain_input_stdin', 'pub fn obtain_input_stdin(vx_lines: Vec<Result<String, Error>>) -> (r: Result<Vec<String>, Error>)', '    ' + body.strip(),
+               'main.rs::obtain_input block of `if is_single_item && is_hyphen && is_stdin_available`', props=['C07', 'C12'], pre=stdin_rules,
+               clauses=[Clause('cli.stdin_invalid_utf8_is_an_error_not_a_panic', '(all_ok(vx_lines@) <==> r is Ok) && (r is Ok ==> r->Ok_0@.len() == vx_lines@.len())', ['C12', 'C07'])])
     # threshold parser
     b.emit('pub uninterp spec fn parse_u32_spec(s: Seq<char>) -> Option<u32>;\n#[verifier::external_body] pub fn vx_parse_u32(s: &str) -> (r: Result<u32, ()>) ensures r is Ok ==> parse_u32_spec(s@) == Some(r->Ok_0) { unimplemented!() }')
     b.verified_fn('main.rs', 'repetition_options_parser', props=['C07'], fname='repetition_options_parser',
                   clauses=[Clause('cli.parser_rejects_zero', 'r is Ok ==> r->Ok_0 > 0', ['C12', 'C07'])],
                   extra_rules=[('R13', r'value\.parse::<u32>\(\)', 'vx_parse_u32(value)', 'str::parse::<u32> (uninterpreted)')])
-    b.emit('} // verus!\nfn main() {}')
+    b.emit('} // verus!\nimpl std::fmt::Debug for Error { fn fmt(&self, f: &mut std::fmt::Formatter<\'_>) -> std::fmt::Result { unimplemented!() } }\nfn main() {}')
     b.trusted += ['clap attributes are stripped (R0): clap is assumed to fill Cli from the command line as the attribute text says and to apply value_parser',
                   'adjacent statement chunks of handle_input run back to back (sequential composition of slices)',
                   'RegExpBuilder::from / with_syntax_highlighting / build are assumed (iterator chain / cfg(feature) / pipeline)']
